@@ -38,21 +38,23 @@ def check_inventory(by_step, cells, elements, tag, charge="cb"):
     base = inventory(by_step[steps[0]], cells, list(elements) + [charge])
     scale = solute_scale(base, elements)
     worst = 0.0
+    seen = set()
     for s in steps[1:]:
         inv = inventory(by_step[s], cells, list(elements) + [charge])
         for e in elements:
             d = abs(inv[e] - base[e])
             if base[e] != 0:
                 worst = max(worst, d / abs(base[e]))
+            kind = "water-element" if e in ("H", "O") else "element"
             # an element absent from the column (inventory exactly 0) has no relative scale of its own: use the dissolved total
-            if d > (TOL * abs(base[e]) if base[e] != 0 else TOL * scale) + ABS_FLOOR:
-                kind = "water-element" if e in ("H", "O") else "element"
+            if d > (TOL * abs(base[e]) if base[e] != 0 else TOL * scale) + ABS_FLOOR and kind not in seen:
+                seen.add(kind)
                 problems.append(("inventory %s %s" % (kind, tag),
                                  "column inventory of %s changes from %.17g mol (shift %d) to %.17g mol (shift %d): relative %.3g > 1e-9" % (
                                      e, base[e], steps[0], inv[e], s, d / abs(base[e]) if base[e] else float("inf"))))
-                break
         d = abs(inv[charge] - base[charge])
-        if d > TOL * max(abs(base[charge]), scale) + ABS_FLOOR:
+        if d > TOL * max(abs(base[charge]), scale) + ABS_FLOOR and "charge" not in seen:
+            seen.add("charge")
             problems.append(("inventory charge %s" % tag,
                              "column charge changes from %.17g eq (shift %d) to %.17g eq (shift %d); difference %.3g eq > 1e-9 x max(|charge|, dissolved moles %.3g)" % (
                                  base[charge], steps[0], inv[charge], s, d, scale)))
